@@ -21,6 +21,7 @@ import (
 	"context"
 	"crypto/sha1"
 	"encoding/hex"
+	"encoding/json"
 	"fmt"
 	"io"
 	"net"
@@ -38,7 +39,9 @@ import (
 	endpoint "github.com/envoyproxy/go-control-plane/envoy/config/endpoint/v3"
 	listener "github.com/envoyproxy/go-control-plane/envoy/config/listener/v3"
 	route "github.com/envoyproxy/go-control-plane/envoy/config/route/v3"
+	envoytls "github.com/envoyproxy/go-control-plane/envoy/extensions/transport_sockets/tls/v3"
 	discovery "github.com/envoyproxy/go-control-plane/envoy/service/discovery/v3"
+	"google.golang.org/grpc/credentials"
 	"google.golang.org/grpc/metadata"
 	"google.golang.org/grpc/peer"
 	"google.golang.org/protobuf/encoding/protojson"
@@ -51,6 +54,8 @@ import (
 	xdsfake "istio.io/istio/pilot/test/xds"
 	"istio.io/istio/pilot/test/xdstest"
 	"istio.io/istio/pkg/config"
+	"istio.io/istio/pkg/config/schema/kind"
+	"istio.io/istio/pkg/security"
 	"verifharness/internal/quiet"
 	"verifharness/internal/wire"
 )
@@ -71,13 +76,14 @@ var proxyDefs = []proxyDef{
 		NodeID: "sidecar~10.20.0.1~app-a.ns1~ns1.svc.cluster.local",
 		Meta: &model.NodeMetadata{Namespace: "ns1", Labels: map[string]string{"app": "a", "version": "v1"}, ClusterID: "Kubernetes",
 			IstioVersion: "1.32.0", ServiceAccount: "a"},
-		Types: []string{"CDS", "EDS", "LDS", "RDS", "NDS"},
+		Types: []string{"CDS", "EDS", "LDS", "RDS", "NDS", "ECDS"},
 	},
 	{
 		Name: "sidecar-b", Locality: "region1/zone1",
 		NodeID: "sidecar~10.21.0.1~app-b.ns2~ns2.svc.cluster.local",
+		// sidecar-b is on network net1: endpoints of another network reach it through that network's gateway
 		Meta: &model.NodeMetadata{Namespace: "ns2", Labels: map[string]string{"app": "b"}, ClusterID: "Kubernetes",
-			IstioVersion: "1.32.0", ServiceAccount: "b"},
+			IstioVersion: "1.32.0", ServiceAccount: "b", Network: "net1"},
 		Types: []string{"CDS", "EDS", "LDS", "RDS", "NDS"},
 	},
 	{
@@ -85,7 +91,7 @@ var proxyDefs = []proxyDef{
 		NodeID: "router~10.2.0.1~gw.istio-system~istio-system.svc.cluster.local",
 		Meta: &model.NodeMetadata{Namespace: "istio-system", Labels: map[string]string{"istio": "ingressgateway"}, ClusterID: "Kubernetes",
 			IstioVersion: "1.32.0", ServiceAccount: "gw"},
-		Types: []string{"CDS", "EDS", "LDS", "RDS"},
+		Types: []string{"CDS", "EDS", "LDS", "RDS", "ECDS", "SDS"},
 	},
 }
 
@@ -95,6 +101,7 @@ var proxyDefs = []proxyDef{
 // Send runs the client's response handling synchronously, so that "the server finished pushing"
 // implies "the client has applied it".
 type client struct {
+	delay   time.Duration // see Send
 	def     proxyDef
 	ctx     context.Context
 	cancel  context.CancelFunc
@@ -114,8 +121,13 @@ type client struct {
 }
 
 func newClient(def proxyDef) *client {
-	// a plaintext peer: authentication is skipped like on istiod's port 15010
-	base := peer.NewContext(context.Background(), &peer.Peer{Addr: &net.TCPAddr{IP: net.IPv4(127, 0, 0, 1), Port: 15010}})
+	// a TLS peer whose certificate identity is the proxy's own service account (ctxAuthenticator): the server sets
+	// Proxy.VerifiedIdentity, which the SDS generator requires
+	base := peer.NewContext(context.Background(), &peer.Peer{Addr: &net.TCPAddr{IP: net.IPv4(127, 0, 0, 1), Port: 15012},
+		AuthInfo: credentials.TLSInfo{}})
+	if def.Meta != nil && def.Meta.ServiceAccount != "" {
+		base = context.WithValue(base, identityKey{}, "spiffe://cluster.local/ns/"+def.Meta.Namespace+"/sa/"+def.Meta.ServiceAccount)
+	}
 	ctx, cancel := context.WithCancel(base)
 	c := &client{def: def, ctx: ctx, cancel: cancel, reqs: make(chan *discovery.DiscoveryRequest, 4096),
 		held: map[string]map[string]string{}, text: map[string]map[string]string{}, subs: map[string][]string{},
@@ -174,6 +186,10 @@ func canon(a *anypb.Any) (name string, text string) {
 		name = x.ClusterName
 	case *route.RouteConfiguration:
 		name = x.Name
+	case *envoycore.TypedExtensionConfig: // ECDS
+		name = x.Name
+	case *envoytls.Secret: // SDS
+		name = x.Name
 	default:
 		name = "-"
 	}
@@ -184,8 +200,15 @@ func canon(a *anypb.Any) (name string, text string) {
 		return name, "bin:" + hex.EncodeToString(bb)
 	}
 	// protojson deliberately randomises whitespace; strip it outside strings
-	return name, stripSpace(string(b))
+	text = stripSpace(string(b))
+	if _, ok := m.(*envoycore.TypedExtensionConfig); ok {
+		// the store's resource version of the WasmPlugin (a wall-clock time in the in-memory store): not configuration
+		text = wasmResourceVersion.ReplaceAllString(text, `"ISTIO_META_WASM_PLUGIN_RESOURCE_VERSION":"-"`)
+	}
+	return name, text
 }
+
+var wasmResourceVersion = regexp.MustCompile(`"ISTIO_META_WASM_PLUGIN_RESOURCE_VERSION":"[^"]*"`)
 
 func stripSpace(s string) string {
 	var b strings.Builder
@@ -219,6 +242,11 @@ func hashOf(s string) string { h := sha1.Sum([]byte(s)); return hex.EncodeToStri
 // Send is called by the server: apply the response like Envoy does (SotW), ACK, and follow up with
 // the EDS / RDS subscriptions implied by the new clusters / listeners.
 func (c *client) Send(resp *discovery.DiscoveryResponse) error {
+	if c.delay > 0 {
+		// a slow receiver: the push of this connection stays IN FLIGHT, later requests merge in the push queue
+		c.touch()
+		time.Sleep(c.delay)
+	}
 	c.mu.Lock()
 	defer c.mu.Unlock()
 	c.touch()
@@ -234,7 +262,7 @@ func (c *client) Send(resp *discovery.DiscoveryResponse) error {
 		texts[n] = t
 	}
 	switch typ {
-	case "CDS", "LDS", "NDS":
+	case "CDS", "LDS", "NDS", "PCDS":
 		// state of the world for a wildcard subscription: the response is the whole set
 		c.held[typ], c.text[typ] = names, texts
 	default:
@@ -256,7 +284,7 @@ func (c *client) Send(resp *discovery.DiscoveryResponse) error {
 	}
 	// ACK
 	switch typ {
-	case "CDS", "LDS", "NDS":
+	case "CDS", "LDS", "NDS", "PCDS":
 		c.request(typ, nil)
 	default:
 		c.request(typ, c.subs[typ])
@@ -279,9 +307,30 @@ func (c *client) Send(resp *discovery.DiscoveryResponse) error {
 			}
 		}
 		c.resubscribe("RDS", xdstest.ExtractRoutesFromListeners(ls))
+		// extension configurations the listeners refer to (WasmPlugin filters): ECDS, a named subscription
+		var ecds []string
+		for _, t := range texts {
+			for _, m := range ecdsRef.FindAllStringSubmatch(t, -1) {
+				ecds = append(ecds, m[1])
+			}
+		}
+		c.resubscribe("ECDS", ecds)
+		// credentials the listeners fetch by SDS from istiod (kubernetes://<secret>)
+		var sds []string
+		for _, t := range texts {
+			for _, m := range sdsRef.FindAllStringSubmatch(t, -1) {
+				sds = append(sds, m[1])
+			}
+		}
+		c.resubscribe("SDS", sds)
 	}
 	return nil
 }
+
+var sdsRef = regexp.MustCompile(`"name":"(kubernetes://[^"]+)"`)
+
+// a filter whose configuration comes by ECDS: {"name":"<resource>","configDiscovery":{...}}
+var ecdsRef = regexp.MustCompile(`"name":"([^"]+)","configDiscovery"`)
 
 // resubscribe: when the set of names changed, drop what is no longer wanted and send a new request.
 func (c *client) resubscribe(typ string, names []string) {
@@ -341,7 +390,7 @@ func (c *client) start(s *xdsfake.FakeDiscoveryServer) {
 		}
 	}()
 	c.mu.Lock()
-	for _, t := range []string{"CDS", "LDS", "NDS"} {
+	for _, t := range []string{"CDS", "LDS", "NDS", "PCDS"} {
 		if c.subscribed(t) {
 			c.request(t, nil)
 		}
@@ -438,13 +487,19 @@ func newSite(w world, debounce time.Duration, ambient bool) *site {
 		cfgs = append(cfgs, infra...)
 		objs = append(objs, ambientKubeObjects(w)...)
 	}
+	objs = append(objs, secretObjects(w)...)
+	objs = append(objs, ingressObjects(w)...)
 	s := xdsfake.NewFakeDiscoveryServer(f, xdsfake.FakeOptions{Configs: cfgs, KubernetesObjects: objs,
-		MeshConfig: meshFor(w), DebounceTime: debounce})
+		MeshConfig: meshFor(w), DebounceTime: debounce, DisableSecretAuthorization: true})
+	s.Discovery.Authenticators = []security.Authenticator{ctxAuthenticator{}}
 	quiet.Silence()
 	return &site{f: f, s: s, ambient: ambient}
 }
 
-func (st *site) connectAll() *clientSet {
+func (st *site) connectAll() *clientSet { return st.connectAllSlow(0) }
+
+// connectAllSlow: clients whose Send takes `delay` (long-lived clients of histories with the `slow=` flag)
+func (st *site) connectAllSlow(delay time.Duration) *clientSet {
 	cs := &clientSet{}
 	defs := proxyDefs
 	if st.ambient {
@@ -452,6 +507,7 @@ func (st *site) connectAll() *clientSet {
 	}
 	for _, d := range defs {
 		c := newClient(d)
+		c.delay = delay
 		c.start(st.s)
 		cs.sotw = append(cs.sotw, c)
 	}
@@ -537,6 +593,12 @@ func (st *site) apply(op string, id string, variant int, cur world) error {
 	if isMesh(id) {
 		return st.applyMesh(op, variant, cur)
 	}
+	if isSecret(id) {
+		return st.applySecret(op, variant)
+	}
+	if isIngress(id) {
+		return st.applyIngress(op, variant)
+	}
 	if isKube(id) {
 		return applyKube(st.s.KubeClient(), op, id, variant, cur)
 	}
@@ -579,7 +641,7 @@ func (d diffEntry) key() string { return d.Proxy + "/" + d.Type + "/" + d.Name }
 // soft: a difference of a classified kind (a recorded finding); the history goes on after it
 func (d diffEntry) soft() bool {
 	return d.Kind == "stale-san" || d.Kind == "stale-mx" || d.Kind == "stale-provider-unimported" ||
-		d.Kind == "stale-sidecar-switches-service" || d.Kind == kindDNSLastWorkload
+		d.Kind == "stale-sidecar-switches-service" || d.Kind == kindDNSLastWorkload || d.Kind == kindProviderNobody || d.Kind == kindStoreAhead
 }
 
 // Recorded finding 7: when the LAST workload selected by a DNS ServiceEntry with a workloadSelector goes away only an
@@ -656,6 +718,12 @@ func compare(longSet, refSet *clientSet, cold, ambient bool) []diffEntry {
 				case hok && rok && hv != rv:
 					out = append(out, diffEntry{c.def.Name, typ, n, classify(ht[typ][n], rt[typ][n], cold, ambient), ht[typ][n], rt[typ][n]})
 				case hok && !rok:
+					if typ == "SDS" {
+						// a Secret that no longer exists: istiod answers the named subscription without the resource and a
+						// SotW client keeps what it has (Envoy does) - the protocol cannot withdraw a named resource, so this
+						// is not istiod's history dependence
+						continue
+					}
 					out = append(out, diffEntry{c.def.Name, typ, n, "extra", ht[typ][n], ""})
 				case !hok && rok:
 					out = append(out, diffEntry{c.def.Name, typ, n, "missing", "", rt[typ][n]})
@@ -688,8 +756,116 @@ func stripField(kind, text string) string {
 		return sanList.ReplaceAllString(text, "")
 	case "stale-mx":
 		return mxFlag.ReplaceAllString(text, "")
+	case kindProviderNobody:
+		return stripMentions(text, nobodyProviderHost)
 	}
 	return text
+}
+
+// Recorded finding 8: creating or deleting a Kubernetes Service that is exported to NOBODY (exportTo "~") requests no
+// push (serviceNeedsPush), so the long-lived istiod's PushContext service index is not rebuilt; an extension provider
+// backed by that service (resolved by a global lookup, which a from-scratch build satisfies) is then resolved differently
+// by the long-lived and by a cold-started istiod - for every proxy, also for one that connects later. Recognised by cause:
+// EVERY object changed since the last comparison is the Service k-svc, it went absent -> exported-to-nobody or
+// exported-to-nobody -> absent, an object of the world uses the provider backed by it (Telemetry tel-root 3 / tel-ns2 1:
+// tcp-als), the reference is a COLD server, and the differences are LDS only and only inside the provider-derived
+// config (the texts agree once every innermost typed config that mentions the service's hostname is taken out).
+const kindProviderNobody = "stale-provider-service-exported-to-nobody"
+
+const nobodyProviderHost = "ksvc.ns1.svc.cluster.local"
+
+func exportedToNobody(w world) bool {
+	v, ok := w["k-svc"]
+	if !ok {
+		return false
+	}
+	d := kubeIndex["k-svc"]
+	return v < len(d.SvcAnnotations) && d.SvcAnnotations[v]["networking.istio.io/exportTo"] == "~"
+}
+
+func usesKsvcProvider(w world) bool {
+	if v, ok := w["tel-root"]; ok && v == 3 {
+		return true
+	}
+	v, ok := w["tel-ns2"]
+	return ok && v == 1
+}
+
+// nobodyTrigger: between the two worlds the Service appeared or disappeared while exported to nobody
+func nobodyTrigger(before, after world) bool {
+	_, b := before["k-svc"]
+	_, a := after["k-svc"]
+	return (!b && exportedToNobody(after)) || (exportedToNobody(before) && !a)
+}
+
+func relabelProviderNobody(before, w world, trigger []string, clause string, d []diffEntry) {
+	if len(d) == 0 || len(trigger) == 0 || clause != "stale-vs-cold-start" || !nobodyTrigger(before, w) || !usesKsvcProvider(w) {
+		return
+	}
+	for _, id := range trigger {
+		if id != "k-svc" {
+			return
+		}
+	}
+	for _, x := range d {
+		if x.Type != "LDS" || x.Kind != "stale" || stripMentions(x.Held, nobodyProviderHost) != stripMentions(x.Want, nobodyProviderHost) {
+			if os.Getenv("VERIF_C01_DEBUG") != "" {
+				fmt.Fprintln(os.Stderr, "provider-nobody: not confined to provider config:", x.tok(),
+					firstDifference(stripMentions(x.Held, nobodyProviderHost), stripMentions(x.Want, nobodyProviderHost)))
+			}
+			return
+		}
+	}
+	for i := range d {
+		d[i].Kind = kindProviderNobody
+	}
+}
+
+// stripMentions removes from a canonical JSON text every INNERMOST array element that is an object with a typed config
+// and mentions host (children are processed first, so an enclosing filter that only mentioned the host through such an
+// element stays).
+func stripMentions(text, host string) string {
+	var v any
+	if err := json.Unmarshal([]byte(text), &v); err != nil {
+		return text
+	}
+	var walk func(x any) any
+	walk = func(x any) any {
+		switch t := x.(type) {
+		case map[string]any:
+			for k, c := range t {
+				n := walk(c)
+				if arr, ok := n.([]any); ok && len(arr) == 0 {
+					if orig, ok := c.([]any); ok && len(orig) > 0 {
+						delete(t, k) // the list only held such elements: as if the field were absent
+						continue
+					}
+				}
+				t[k] = n
+			}
+			return t
+		case []any:
+			out := make([]any, 0, len(t))
+			for _, c := range t {
+				c = walk(c)
+				if m, ok := c.(map[string]any); ok {
+					if _, typed := m["typedConfig"]; typed {
+						if b, err := json.Marshal(m); err == nil && strings.Contains(string(b), host) {
+							continue
+						}
+					}
+				}
+				out = append(out, c)
+			}
+			return out
+		}
+		return x
+	}
+	b, err := json.Marshal(walk(v))
+	if err != nil {
+		return text
+	}
+	return string(b)
 }
 
 // classify names the kind of difference between a held and a wanted resource. Two kinds are
@@ -756,6 +932,107 @@ type step struct {
 	ID      string
 	Variant int
 	Burst   int // >0: marker "the next Burst steps are applied back to back"
+	// markers between the steps of a burst (they are not steps): Gap = sleep that long, then go on WITHOUT waiting for
+	// quiescence (longer than the debounce time: the next change arrives while the push is in flight); Connect = a
+	// further set of long-lived clients connects right now (while a push is pending)
+	Gap     time.Duration
+	Connect bool
+	// Hold: from now on every ConfigUpdate call of the server (an event handler of the config store or of a registry
+	// delivering its event) is PARKED at its entry: the stores and registries move on, the debouncer does not hear of it
+	// - "the store is ahead of event delivery". Release: the parked calls go on, in their order. (Hook verifGateReq of
+	// pilot/pkg/xds/zz_verif_e2e.go.) A hold ends at the latest with its burst.
+	Hold    bool
+	Release bool
+}
+
+func (s step) marker() bool { return s.Burst > 0 || s.Gap > 0 || s.Connect || s.Hold || s.Release }
+
+// holdGate parks ConfigUpdate callers (see step.Hold)
+type holdGate struct {
+	release chan struct{}
+	parked  atomic.Int64
+	mu      sync.Mutex
+	keys    []model.ConfigKey // the ConfigsUpdated of the parked calls
+}
+
+func installHold() *holdGate {
+	g := &holdGate{release: make(chan struct{})}
+	xds.VerifE2ESetReqGate(func(point string, req *model.PushRequest) {
+		if point == "configupdate" {
+			g.parked.Add(1)
+			if req != nil {
+				g.mu.Lock()
+				for k := range req.ConfigsUpdated {
+					g.keys = append(g.keys, k)
+				}
+				g.mu.Unlock()
+			}
+			<-g.release
+		}
+	})
+	return g
+}
+
+func (g *holdGate) open() {
+	xds.VerifE2ESetReqGate(nil)
+	close(g.release)
+}
+
+func (g *holdGate) parkedKeys() []model.ConfigKey {
+	g.mu.Lock()
+	defer g.mu.Unlock()
+	return append([]model.ConfigKey(nil), g.keys...)
+}
+
+// Recorded finding 9 (store ahead of event delivery), the harness half of its recognition: a stale resource is explained
+// by the hold window only if it belongs to a SERVICE object that was DELETED under the hold (its own event parked, so a
+// push for an earlier event already saw the registry without it) and a parked ConfigUpdate call really named that
+// object's key. checks/C01.py adds the causal half (fails again; converges without the markers).
+const kindStoreAhead = "stale-store-ahead"
+
+// serviceObjects: service-defining objects of the grammar -> (namespace, hosts); the ServiceEntry key of a service is
+// (hostname, namespace)
+var serviceObjects = map[string]struct {
+	ns    string
+	hosts []string
+}{
+	"se-a": {"ns1", []string{"a.example.com"}}, "se-b": {"ns2", []string{"b.example.com", "b-alt.example.com"}},
+	"se-dup1": {"ns1", []string{"dup.example.com"}}, "se-dup2": {"ns2", []string{"dup.example.com"}},
+	"se-otel": {"istio-system", []string{"otel.example.com"}}, "se-authz": {"ns2", []string{"authz.example.com"}},
+	"se-c": {"ns1", []string{"c.example.com"}}, "se-d": {"ns1", []string{"d.example.com"}},
+}
+
+func relabelStoreAhead(heldDeletes []string, parked []model.ConfigKey, d []diffEntry) {
+	if len(d) == 0 || len(heldDeletes) == 0 {
+		return
+	}
+	explained := func(name string) bool {
+		for _, id := range heldDeletes {
+			o, ok := serviceObjects[id]
+			if !ok {
+				continue
+			}
+			for _, h := range o.hosts {
+				if !hostIn(map[string]bool{h: true}, name) {
+					continue
+				}
+				for _, k := range parked {
+					if k.Kind == kind.ServiceEntry && k.Name == h && k.Namespace == o.ns {
+						return true
+					}
+				}
+			}
+		}
+		return false
+	}
+	for _, x := range d {
+		if x.Kind != "stale" || !explained(x.Name) {
+			return
+		}
+	}
+	for i := range d {
+		d[i].Kind = kindStoreAhead
+	}
 }
 
 type caseDef struct {
@@ -763,7 +1040,10 @@ type caseDef struct {
 	Debounce time.Duration
 	Base     world
 	Ambient  bool
-	ColdEach bool // compare with a cold-started server after every step, not only at the end
+	ColdEach bool          // compare with a cold-started server after every step, not only at the end
+	Order    int           // kubeOrder of the history
+	Age      int           // ageSalt of the history (creation timestamp order of the config objects)
+	Slow     time.Duration // Send delay of the long-lived clients
 	Steps    []step
 }
 
@@ -783,6 +1063,17 @@ func parseCases(lines [][]string) []caseDef {
 					c.Ambient = true
 				case "coldeach":
 					c.ColdEach = true
+				default:
+					if kv := strings.SplitN(fl, "=", 2); len(kv) == 2 {
+						switch kv[0] {
+						case "order":
+							c.Order = atoi(kv[1])
+						case "age":
+							c.Age = atoi(kv[1])
+						case "slow":
+							c.Slow = time.Duration(atoi(kv[1])) * time.Millisecond
+						}
+					}
 				}
 			}
 			out = append(out, c)
@@ -793,6 +1084,22 @@ func parseCases(lines [][]string) []caseDef {
 		case "burst":
 			if len(out) > 0 && len(f) >= 2 {
 				out[len(out)-1].Steps = append(out[len(out)-1].Steps, step{Burst: atoi(f[1])})
+			}
+		case "gap":
+			if len(out) > 0 && len(f) >= 2 {
+				out[len(out)-1].Steps = append(out[len(out)-1].Steps, step{Gap: time.Duration(atoi(f[1])) * time.Millisecond})
+			}
+		case "connect":
+			if len(out) > 0 {
+				out[len(out)-1].Steps = append(out[len(out)-1].Steps, step{Connect: true})
+			}
+		case "hold":
+			if len(out) > 0 {
+				out[len(out)-1].Steps = append(out[len(out)-1].Steps, step{Hold: true})
+			}
+		case "release":
+			if len(out) > 0 {
+				out[len(out)-1].Steps = append(out[len(out)-1].Steps, step{Release: true})
 			}
 		}
 	}
@@ -808,9 +1115,9 @@ const (
 // settleAndCompare waits for quiescence and compares the long-lived clients with reference clients
 // produced by mkRef; a difference must persist (re-compared against fresh references after waiting
 // `patience` in a fully quiescent system) to be reported.
-func settleAndCompare(st *site, refSite *site, long *clientSet, ignore map[string]string) ([]diffEntry, string) {
+func settleAndCompare(st *site, refSite *site, longs []*clientSet, ignore map[string]string) ([]diffEntry, string) {
 	attempt := func() ([]diffEntry, string) {
-		if !st.quiesce([]*clientSet{long}, calmTime, settleTime) {
+		if !st.quiesce(longs, calmTime, settleTime) {
 			return nil, "no-quiescence"
 		}
 		ref := refSite.connectAll()
@@ -819,11 +1126,15 @@ func settleAndCompare(st *site, refSite *site, long *clientSet, ignore map[strin
 			if !refSite.quiesce([]*clientSet{ref}, calmTime, settleTime) {
 				return nil, "no-quiescence-ref"
 			}
-		} else if !st.quiesce([]*clientSet{long, ref}, calmTime, settleTime) {
+		} else if !st.quiesce(append(append([]*clientSet{}, longs...), ref), calmTime, settleTime) {
 			return nil, "no-quiescence-ref"
 		}
+		var all []diffEntry
+		for _, long := range longs {
+			all = append(all, compare(long, ref, refSite != st, st.ambient)...)
+		}
 		var out []diffEntry
-		for _, x := range compare(long, ref, refSite != st, st.ambient) {
+		for _, x := range all {
 			if k, ok := ignore[x.key()]; ok {
 				// a finding of kind k was recorded on this resource earlier in the history: only the
 				// field it is about is ignored from then on
@@ -866,10 +1177,28 @@ func runCase(c caseDef) caseResult {
 	if c.Ambient && !ambientEnabled() {
 		return caseResult{Verdict: "FAIL harness-misconfigured ambient-case-needs-PILOT_ENABLE_AMBIENT=true"}
 	}
+	kubeOrder, ageSalt = c.Order, c.Age
 	st := newSite(c.Base, c.Debounce, c.Ambient)
 	defer st.close()
-	long := st.connectAll()
+	long := st.connectAllSlow(c.Slow)
 	st.clients = long
+	longs := []*clientSet{long}
+	var gate *holdGate
+	compared := false
+	var heldDeletes []string         // service objects deleted under a hold window since the last comparison
+	var parkedKeys []model.ConfigKey // keys of the ConfigUpdate calls parked in those windows
+	defer func() {
+		if gate != nil {
+			gate.open()
+		}
+	}()
+	defer func() {
+		for _, l := range longs {
+			if l != st.clients {
+				l.stop()
+			}
+		}
+	}()
 	w := c.Base.clone()
 	report := func(clause string, after int, d []diffEntry) caseResult {
 		var toks []string
@@ -895,60 +1224,6 @@ func runCase(c caseDef) caseResult {
 	// at some step (finding 3), hosts whose endpoint membership changed at some step (finding 4)
 	zeroed, touched := map[string]bool{}, map[string]bool{}
 	dnsZeroed := dnsZeroTracker{}
-	check := func(ref *site, clause string, after int) *caseResult {
-		d, e := settleAndCompare(st, ref, long, ignore)
-		for i := range d {
-			switch d[i].Kind {
-			case "stale-san":
-				if !hostIn(zeroed, d[i].Name) {
-					d[i].Kind = "stale"
-				}
-			case "stale-mx":
-				if !hostIn(touched, d[i].Name) {
-					d[i].Kind = "stale"
-				}
-			case "extra":
-				if clause == "stale-vs-cold-start" && dnsZeroed.matches(d[i].Type, d[i].Name, d[i].Kind) {
-					d[i].Kind = kindDNSLastWorkload
-				}
-			}
-		}
-		relabelProviderUnimported(wPrev, w, trigger, d)
-		relabelSidecarSwitchesService(w, trigger, d)
-		if e != "" {
-			return &caseResult{Verdict: fmt.Sprintf("FAIL %s step=%d", e, after)}
-		}
-		if len(d) == 0 {
-			return nil
-		}
-		hard := false
-		for _, x := range d {
-			if !x.soft() {
-				hard = true
-			}
-		}
-		r := report(clause, after, d)
-		if hard {
-			return &r
-		}
-		for _, x := range d {
-			if x.Kind == "stale-provider-unimported" || x.Kind == "stale-sidecar-switches-service" {
-				// recorded finding 7; there is no field to strip, the history ends here
-				return &r
-			}
-		}
-		if softVerdict == nil {
-			softVerdict = &r
-		}
-		for _, x := range d {
-			ignore[x.key()] = x.Kind
-		}
-		return nil
-	}
-	// the long-lived clients must be in sync before the history starts
-	if r := check(st, "initial-sync", 0); r != nil {
-		return *r
-	}
 	burst := 0
 	pushes, skips := 0, 0
 	respCount := func() map[string]int {
@@ -970,10 +1245,111 @@ func runCase(c caseDef) caseResult {
 		return m
 	}
 	before := respCount()
+	check := func(ref *site, clause string, after int) *caseResult {
+		d, e := settleAndCompare(st, ref, longs, ignore)
+		for i := range d {
+			switch d[i].Kind {
+			case "stale-san":
+				if !hostIn(zeroed, d[i].Name) {
+					d[i].Kind = "stale"
+				}
+			case "stale-mx":
+				if !hostIn(touched, d[i].Name) {
+					d[i].Kind = "stale"
+				}
+			case "extra":
+				if clause == "stale-vs-cold-start" && dnsZeroed.matches(d[i].Type, d[i].Name, d[i].Kind) {
+					d[i].Kind = kindDNSLastWorkload
+				}
+			}
+		}
+		relabelProviderUnimported(wPrev, w, trigger, d)
+		relabelSidecarSwitchesService(w, trigger, d)
+		relabelProviderNobody(wPrev, w, trigger, clause, d)
+		relabelStoreAhead(heldDeletes, parkedKeys, d)
+		if e != "" {
+			return &caseResult{Verdict: fmt.Sprintf("FAIL %s step=%d", e, after)}
+		}
+		if len(d) == 0 {
+			return nil
+		}
+		hard := false
+		for _, x := range d {
+			if !x.soft() {
+				hard = true
+			}
+		}
+		r := report(clause, after, d)
+		if hard {
+			return &r
+		}
+		if softVerdict == nil {
+			softVerdict = &r
+		}
+		for _, x := range d {
+			if x.Kind == "stale-provider-unimported" || x.Kind == "stale-sidecar-switches-service" || x.Kind == kindStoreAhead {
+				// recorded findings 5 / 6: there is no field to strip. The finding is remembered and the long-lived clients
+				// RECONNECT (what an operator's restart of the proxies does), so that the rest of the history still counts.
+				for _, l := range longs {
+					l.stop()
+				}
+				long = st.connectAllSlow(c.Slow)
+				st.clients = long
+				longs = []*clientSet{long}
+				if !st.quiesce(longs, calmTime, settleTime) {
+					return &caseResult{Verdict: fmt.Sprintf("FAIL no-quiescence-after-reconnect step=%d", after)}
+				}
+				before = respCount()
+				return nil
+			}
+		}
+		for _, x := range d {
+			ignore[x.key()] = x.Kind
+		}
+		return nil
+	}
+	// the long-lived clients must be in sync before the history starts
+	if r := check(st, "initial-sync", 0); r != nil {
+		return *r
+	}
 	for i, s := range c.Steps {
 		if s.Burst > 0 {
 			burst = s.Burst
 			continue
+		}
+		if s.Gap > 0 {
+			time.Sleep(s.Gap)
+			continue
+		}
+		if s.Connect {
+			longs = append(longs, st.connectAllSlow(c.Slow))
+			continue
+		}
+		if s.Hold {
+			if gate == nil {
+				gate = installHold()
+			}
+			continue
+		}
+		if s.Release {
+			if gate != nil {
+				parkedKeys = append(parkedKeys, gate.parkedKeys()...)
+				gate.open()
+				gate = nil
+			}
+			continue
+		}
+		if compared {
+			trigger, wPrev, compared = nil, w.clone(), false
+			heldDeletes, parkedKeys = nil, nil
+		}
+		if gate != nil && s.Op == "delete" {
+			heldDeletes = append(heldDeletes, s.ID)
+		}
+		if gate != nil && (isMesh(s.ID) || isSecret(s.ID)) {
+			// these objects' push is requested by the harness itself (see applyMesh / applySecret): not under a hold
+			gate.open()
+			gate = nil
 		}
 		if err := st.apply(s.Op, s.ID, s.Variant, w); err != nil {
 			return caseResult{Verdict: fmt.Sprintf("FAIL apply-error step=%d %s", i+1, wire.Enc(err.Error()))}
@@ -985,11 +1361,27 @@ func runCase(c caseDef) caseResult {
 				}
 			}
 		}
+		dropIgnored := func(kind, h string) {
+			for k, v := range ignore {
+				if v == kind && hostIn(map[string]bool{h: true}, k) {
+					delete(ignore, k)
+				}
+			}
+		}
 		for _, h := range endpointHosts(s.ID, w) {
 			touched[h] = true
 			if losesLastEndpoint(s, w, h) {
 				zeroed[h] = true
+			} else if zeroed[h] && regainsEndpoint(s, w, h) {
+				// finding 3 heals once the shard has endpoints again: a SAN superset after that is another defect
+				delete(zeroed, h)
+				dropIgnored("stale-san", h)
 			}
+		}
+		if s.ID == "am-se" {
+			// finding 4 heals with a full push for the service itself
+			delete(touched, "app.com")
+			dropIgnored("stale-mx", "app.com")
 		}
 		if s.Op == "delete" {
 			delete(w, s.ID)
@@ -1002,6 +1394,12 @@ func runCase(c caseDef) caseResult {
 			continue
 		}
 		burst = 0
+		if gate != nil {
+			time.Sleep(5 * time.Millisecond) // let the handlers of the last writes reach the gate
+			parkedKeys = append(parkedKeys, gate.parkedKeys()...)
+			gate.open()
+			gate = nil
+		}
 		if r := check(st, "stale-vs-fresh-client", i+1); r != nil {
 			return *r
 		}
@@ -1013,8 +1411,7 @@ func runCase(c caseDef) caseResult {
 				return *r
 			}
 		}
-		trigger = nil
-		wPrev = w.clone()
+		compared = true // trigger / wPrev are reset when the next step begins: the final cold comparison still sees them
 		after := respCount()
 		for _, cl := range long.views() {
 			for _, t := range cl.def.Types {
@@ -1066,6 +1463,8 @@ func endpointHosts(id string, w world) []string {
 		return []string{"c.example.com", "d.example.com"}
 	case "we-k":
 		return []string{"ksvc.ns1.svc.cluster.local"}
+	case "k-slice2":
+		return []string{"ksvc.ns1.svc.cluster.local", "hsvc.ns1.svc.cluster.local"}
 	case "am-we":
 		return []string{"app.com"}
 	}
@@ -1108,7 +1507,7 @@ func shardEndpoints(w world, h string) int {
 		}
 	default:
 		for _, d := range kubeUniverse {
-			if d.PodOnly || d.Name+"."+d.Ns+".svc.cluster.local" != h {
+			if d.PodOnly || d.SliceOnly || d.Name+"."+d.Ns+".svc.cluster.local" != h {
 				continue
 			}
 			if v, ok := w[d.ID]; ok {
@@ -1116,10 +1515,25 @@ func shardEndpoints(w world, h string) int {
 				if _, ok := w["we-k"]; ok && d.ID == "k-svc" {
 					n++
 				}
+				// the second slice belongs to ksvc (variants 0, 2) or to hsvc (variant 1)
+				if sv, ok := w["k-slice2"]; ok && kubeIndex["k-slice2"].SliceService[sv] == d.Name {
+					n++
+				}
 			}
 		}
 	}
 	return n
+}
+
+// regainsEndpoint: after step s the registry shard of host h holds endpoints again
+func regainsEndpoint(s step, w world, h string) bool {
+	after := w.clone()
+	if s.Op == "delete" {
+		delete(after, s.ID)
+	} else {
+		after[s.ID] = s.Variant
+	}
+	return shardEndpoints(after, h) > 0
 }
 
 // losesLastEndpoint: the trigger of finding 3 - with this step the registry shard of host h goes from
@@ -1311,29 +1725,72 @@ func genConvergeMode(seed uint64, n int, out string, ambient bool) {
 				}
 			}
 		}
-		if cr.Chance(1, 5) {
-			w[meshID] = cr.Intn(len(meshVariants))
+		for _, x := range pseudoObjs {
+			if cr.Chance(1, 5) {
+				w[x.id] = cr.Intn(x.n)
+			}
 		}
 		// the debouncer is never off: with 0 ms istiod pushes in the same instant an event arrives and
 		// races with its own derived indexes (see notes/C01.md, "unreproduced differences")
 		deb := 10
-		if cr.Chance(1, 3) {
+		switch cr.Intn(6) {
+		case 0, 1:
 			deb = 25
+		case 2:
+			deb = 100
 		}
+		flags := []string{}
 		if ambient {
-			o.Line("case", strconv.Itoa(c), "converge", strconv.Itoa(deb), w.tok(), "ambient")
-		} else {
-			o.Line("case", strconv.Itoa(c), "converge", strconv.Itoa(deb), w.tok())
+			flags = append(flags, "ambient")
 		}
+		if cr.Chance(1, 2) {
+			flags = append(flags, "order="+strconv.Itoa(1+cr.Intn(3)))
+		}
+		if cr.Chance(1, 2) {
+			flags = append(flags, "age="+strconv.Itoa(1+cr.Intn(9)))
+		}
+		if cr.Chance(1, 3) {
+			// slow receivers: pushes stay in flight, later requests merge in the push queue
+			flags = append(flags, "slow="+strconv.Itoa(5+10*cr.Intn(3)))
+		}
+		o.Line(append([]string{"case", strconv.Itoa(c), "converge", strconv.Itoa(deb), w.tok()}, flags...)...)
 		cur := w.clone()
-		steps := 2 + cr.Intn(4)
-		inBurst := 0
+		steps := 2 + cr.Intn(6)
+		inBurst, holding := 0, false
 		for i := 0; i < steps; i++ {
 			if inBurst > 0 {
 				inBurst--
-			} else if deb > 0 && cr.Chance(1, 3) && i+1 < steps {
-				o.Line("burst", "2")
-				inBurst = 1
+				// between the steps of a burst: nothing (one debounce window), a gap longer than the debounce time (the next
+				// change arrives while the push is in flight), or a further client set connecting right now
+				switch cr.Intn(5) {
+				case 0:
+					o.Line("gap", strconv.Itoa(deb*(1+cr.Intn(3))+cr.Intn(deb)))
+				case 1:
+					o.Line("gap", strconv.Itoa(1+cr.Intn(deb)))
+				case 2:
+					if cr.Chance(1, 2) {
+						o.Line("connect")
+					}
+				case 3:
+					// the events of the following changes are held back while the push of the earlier ones runs
+					if !holding {
+						o.Line("gap", strconv.Itoa(1+cr.Intn(deb)))
+						o.Line("hold")
+						holding = true
+					} else {
+						o.Line("gap", strconv.Itoa(deb*2+cr.Intn(deb)))
+						o.Line("release")
+						holding = false
+					}
+				}
+			} else if cr.Chance(1, 3) && i+1 < steps {
+				n := 2 + cr.Intn(4) // bursts of 2..5
+				if n > steps-i {
+					n = steps - i
+				}
+				o.Line("burst", strconv.Itoa(n))
+				inBurst = n - 1
+				holding = false
 			}
 			id, nvar := "", 0
 			if ambient && cr.Chance(1, 2) {
@@ -1342,8 +1799,9 @@ func genConvergeMode(seed uint64, n int, out string, ambient bool) {
 			} else if cr.Chance(1, 12) {
 				d := wire.Pick(cr, gwapiUniverse)
 				id, nvar = d.ID, len(d.Variants)
-			} else if cr.Chance(1, 16) {
-				id, nvar = meshID, len(meshVariants)
+			} else if cr.Chance(1, 10) {
+				x := wire.Pick(cr, pseudoObjs)
+				id, nvar = x.id, x.n
 			} else if cr.Chance(1, 5) {
 				d := wire.Pick(cr, kubeUniverse)
 				id, nvar = d.ID, len(d.Variants)
@@ -1399,7 +1857,9 @@ func genConvergeSweep(which int, out string) {
 	for _, d := range gwapiUniverse {
 		objs = append(objs, obj{d.ID, len(d.Variants)})
 	}
-	objs = append(objs, obj{meshID, len(meshVariants)})
+	for _, x := range pseudoObjs {
+		objs = append(objs, obj{x.id, x.n})
+	}
 	n := 0
 	for k := 0; k < 3; k++ {
 		if which >= 0 && which != k {
